@@ -633,10 +633,10 @@ def differential(ctx, world, seqs, tmpdir, label):
     ok_runs = [r for r in runs if not (r[3] or "").startswith("unexpected")]
     for seq, ops, obs, note in runs:
         if (note or "").startswith("unexpected"):
-            ctx.fail_input("%s on op %d (%s) of a valid sequence" % (note, len(ops) - 1,
-                                                                    ops[-1]["op"]),
-                           dict(kind="sequence", seq=jseq(seq["cfg"], ops)),
-                           key="%s-raises-%s" % (ops[-1]["op"], obs[-1]["out"][1]))
+            fail_once(ctx, "%s on op %d (%s) of a valid sequence" % (note, len(ops) - 1,
+                                                                     ops[-1]["op"]),
+                      dict(kind="sequence", seq=jseq(seq["cfg"], ops)),
+                      "%s-raises-%s" % (ops[-1]["op"], obs[-1]["out"][1]))
     terms = [coq_case(s["cfg"], ops, obs) for s, ops, obs, _ in ok_runs]
     bad = ctx.run_cases("diff_" + label, HEADER, terms, per_file=60)
     failing = []
@@ -1091,7 +1091,10 @@ class Real:
         xs = np.linspace(t1[0], t1[-1], 7)
         from scipy.interpolate import CubicSpline
         ref = CubicSpline(t0, pre["vals"], axis=0)(xs)
-        if np.max(np.abs(np.asarray(f(xs)) - ref)) > 1e-11:
+        gaps = np.diff(t0)
+        # the text format keeps 15 digits; a cubic through very unequal knots amplifies that
+        tol = 1e-11 * max(1.0, float(gaps.max() / gaps.min())) ** 3
+        if np.max(np.abs(np.asarray(f(xs)) - ref)) > tol:
             self.fail("write + read does not reproduce the interpolated function", seq, i,
                       "roundtrip")
             return False
@@ -1138,10 +1141,10 @@ def float_hazards(ctx, rng, n):
         if not np.all(d > 0):
             fail_once(ctx, "table not strictly increasing after a non-dyadic extension", rep,
                       "table-not-increasing")
-        elif d.min() < 1e-9:
-            report_hazard(ctx, "extension leaves two abscissae %.3g apart (duplicate of the old "
-                          "table end)" % d.min(), rep, "extend-duplicate-knot")
-        if t[-1] > nM + 1e-9 or t[0] < nm - 1e-9 or len(t) != npts + pl + ph:
+        elif d.min() < 0.5 * min((a - nm) / pl, (nM - b_) / ph, (b_ - a) / (npts - 1)):
+            report_hazard(ctx, "extension leaves two abscissae %.3g apart (near-duplicate of the "
+                          "old table end)" % d.min(), rep, "extend-duplicate-knot")
+        if abs(t[-1] - nM) > 1e-12 * (1 + abs(nM)) or t[0] != nm or len(t) != npts + pl + ph:
             report_hazard(ctx, "extension to [%r, %r] with %d+%d points produced %d points over "
                           "[%r, %r] (expected %d)" % (nm, nM, pl, ph, len(t), t[0], t[-1],
                                                       npts + pl + ph), rep, "extend-overshoot")
@@ -1155,7 +1158,17 @@ def degenerate_hazard(ctx):
         ctx.count("degenerate_adaptive", dict(k=k))
         try:
             for _ in range(4):
-                f(1.0)
+                r = np.asarray(f(1.0))
+                if not np.array_equal(r, fval(1.0, k, None, 0)):
+                    report_hazard(ctx, "repeated evaluation at one point without a table returns "
+                                  "%s" % r.tolist(), dict(kind="degenerate", k=k, x=1.0, threshold=3),
+                                  "adaptive-degenerate-range")
+            f(2.0)
+            f(1.5)
+            if not f.hasInterpolation():
+                report_hazard(ctx, "no table built after evaluations at two distinct points past "
+                              "the threshold", dict(kind="degenerate", k=k, x=[1.0, 2.0, 1.5],
+                                                    threshold=3), "adaptive-no-table")
         except Exception as e:  # noqa
             report_hazard(ctx, "no table, adaptive threshold 3: the third evaluation at the same "
                           "point raises %s (adaptive update calls newInterpolationTable(x, x, n))"
